@@ -157,6 +157,9 @@ def unit_of(msg: t.Any, rnd: random.Random, alt: bool = True) -> t.Tuple[bytes, 
 def bad_unit(rnd: random.Random, base: t.Optional[bytes]) -> t.Tuple[bytes, t.Dict[str, t.Any]]:
     if base is not None and rnd.random() < 0.6:
         b = mutate(base, rnd)
+    elif rnd.random() < 0.15:
+        _, f = rnd.choice(sess.MAYBE)
+        b = f(rnd)
     else:
         _, b = sess.garbage(rnd)
     return b, {"k": "garbage", "id": 0, "valid": False, "dig": ""}
